@@ -28,6 +28,8 @@ def string(text: str, flavour: str = 's') -> Tok:
 
 STR_BODIES = ['', 'a', 'ab', 'abc', 'a b', 'x_y', 'Hello', 'foo.c', '42', ' 7 ', '-3', '0x1f', 'a,b,c', 'k1', 'k2', 'zz', '/usr',
               'lib/', 'A-b c', '@0@', '@0@-@1@', 'v@x@', 'a\\nb', 'q\\\'q', 'tab\\t', '\\x41', '\\101', '\\u00e9', '\\q', 'back\\\\slash',
+              # an escaped backslash followed by text that looks like another escape (decoding is one left-to-right pass)
+              'C:\\\\x86\\\\bin', '\\\\u0041', 'dir\\\\1st', '\\\\N{DIGIT ONE}', '\\\\\\x41', '\\\\n', '\\\\\\\\101',
               'é', 'ünï', 'a  b', 'x=1']
 ML_BODIES = ['', 'a', "it's", 'a\\nb', 'line1\nline2', '@0@', 'v@x@', '\\x41 raw']
 
